@@ -5,7 +5,9 @@ import fcntl, hashlib, json, os, shutil, subprocess, sys, time
 
 VERIF = os.path.dirname(os.path.dirname(os.path.abspath(__file__)))
 REPO = os.environ.get("VERIF_REPO", "/repo")
-BUILD = os.path.join(VERIF, ".build")
+# VERIF_BUILD / VERIF_OUT let tools/seed_par.sh run several trees side by side; registered commands never set them
+BUILD = os.environ.get("VERIF_BUILD") or os.path.join(VERIF, ".build")
+OUT = os.environ.get("VERIF_OUT") or VERIF
 SRC = os.path.join(BUILD, "src")
 GUARD = "TUKAANI_PROJECT_XZ_VERIF"
 NPROC = os.cpu_count() or 4
